@@ -104,3 +104,63 @@ EXPORT const void* vh_module_fn(const MODULE* m, const char* name) {
 #undef VH_M
   return 0;
 }
+
+// ---- allocation ledger (C11): bytes held by the heap during / after a new_* ... delete_* scope
+#include "spqlios/q120/q120_arithmetic.h"
+#include "spqlios/reim4/reim4_fftvec_public.h"
+static int64_t vh_inuse(void) {
+  struct mallinfo2 mi = mallinfo2();
+  return (int64_t)mi.uordblks + (int64_t)mi.hblkhd;
+}
+// what: 0 FFT64 module, 1 NTT120 module, 2 vec_znx_dft, 3 vec_znx_big, 4 svp_ppol, 5 vmp_pmat (on an FFT64 module of dimension n),
+// 6 q120 ntt tables, 7 q120 intt tables, 8 q120 product tables, 9 reim fft/ifft/mul/addmul/conversion tables, 10 cplx tables, 11 reim4 tables.
+// out[0] = bytes held while the objects exist, out[1] = bytes still held after the deletes (must be 0)
+EXPORT void vh_alloc_scope(int what, uint64_t n, uint64_t p1, uint64_t p2, int64_t* out) {
+  MODULE* mod = 0;
+  if (what >= 2 && what <= 5) mod = new_module_info(n, FFT64);
+  const int64_t before = vh_inuse();
+  int64_t during = 0;
+  switch (what) {
+    case 0: case 1: { MODULE* m = new_module_info(n, what ? NTT120 : FFT64); during = vh_inuse(); delete_module_info(m); break; }
+    case 2: { VEC_ZNX_DFT* o = new_vec_znx_dft(mod, p1); during = vh_inuse(); delete_vec_znx_dft(o); break; }
+    case 3: { VEC_ZNX_BIG* o = new_vec_znx_big(mod, p1); during = vh_inuse(); delete_vec_znx_big(o); break; }
+    case 4: { SVP_PPOL* o = new_svp_ppol(mod); during = vh_inuse(); delete_svp_ppol(o); break; }
+    case 5: { VMP_PMAT* o = new_vmp_pmat(mod, p1, p2); during = vh_inuse(); delete_vmp_pmat(o); break; }
+    case 6: { q120_ntt_precomp* o = q120_new_ntt_bb_precomp(n); during = vh_inuse(); q120_del_ntt_bb_precomp(o); break; }
+    case 7: { q120_ntt_precomp* o = q120_new_intt_bb_precomp(n); during = vh_inuse(); q120_del_intt_bb_precomp(o); break; }
+    case 8: {
+      q120_mat1col_product_baa_precomp* a = q120_new_vec_mat1col_product_baa_precomp();
+      q120_mat1col_product_bbb_precomp* b = q120_new_vec_mat1col_product_bbb_precomp();
+      q120_mat1col_product_bbc_precomp* c = q120_new_vec_mat1col_product_bbc_precomp();
+      during = vh_inuse();
+      q120_delete_vec_mat1col_product_baa_precomp(a); q120_delete_vec_mat1col_product_bbb_precomp(b); q120_delete_vec_mat1col_product_bbc_precomp(c);
+      break;
+    }
+    case 9: {
+      void* t[7] = {new_reim_fft_precomp(n, p1), new_reim_ifft_precomp(n, p1), new_reim_fftvec_mul_precomp(n), new_reim_fftvec_addmul_precomp(n),
+                    new_reim_from_znx64_precomp(n, 50), new_reim_to_znx64_precomp(n, 1., 63), new_reim_to_tnx_precomp(n, 1., 2)};
+      during = vh_inuse();
+      delete_reim_fft_precomp(t[0]); delete_reim_ifft_precomp(t[1]); delete_reim_fftvec_mul_precomp(t[2]); delete_reim_fftvec_addmul_precomp(t[3]);
+      delete_reim_from_znx64_precomp(t[4]); delete_reim_to_znx64_precomp(t[5]); delete_reim_to_tnx_precomp(t[6]);
+      break;
+    }
+    case 10: {
+      void* t[7] = {new_cplx_fft_precomp(n, p1), new_cplx_ifft_precomp(n, p1), new_cplx_fftvec_mul_precomp(n), new_cplx_fftvec_addmul_precomp(n),
+                    new_cplx_from_znx32_precomp(n), new_cplx_from_tnx32_precomp(n), new_cplx_to_tnx32_precomp(n, 1., 2)};
+      during = vh_inuse();
+      for (int i = 0; i < 7; ++i) free(t[i]);
+      break;
+    }
+    case 11: {
+      void* t[4] = {new_reim4_fftvec_mul_precomp(n), new_reim4_fftvec_addmul_precomp(n), new_reim4_from_cplx_precomp(n), new_reim4_to_cplx_precomp(n)};
+      during = vh_inuse();
+      for (int i = 0; i < 4; ++i) free(t[i]);
+      break;
+    }
+    default: break;
+  }
+  const int64_t after = vh_inuse();
+  out[0] = during - before;
+  out[1] = after - before;
+  if (mod) delete_module_info(mod);
+}
